@@ -1,36 +1,25 @@
 import Rg.Base
 import Rg.Model.Trunc
 import Rg.Model.Regex
-import Rg.Model.CommentSpan
 /-!
-# Model of comment rules: `runner.go:runCommentRules`, `commentPart`, `handleCommentMatch`, the part of
-`renderMessage`/`nodeText` they use, and `utils.go:regexpHasCaptureGroups`
+# The comment-rule runner AS IT WAS before `fixes/c12-cr-offsets.diff`
 
-This is the code after `fixes/c12-cr-offsets.diff` (the model of the code before it is
-`Rg/Model/CommentAsIs.lean`).  Positions are byte offsets in the file (`token.Pos` minus the file base).
-A node made by the runner (`rulesRunner.commentPart`) is `Node pos text endPos` ≙ an `*ast.Comment` whose
-`Slash` is `file.Pos(pos)` and whose `End()` is `file.Pos(endPos)` — its `Text` field holds the file bytes
-`src[pos:endPos]` when they are longer than the piece, so that `End() = Slash + len(Text)` covers them — together
-with the entry `rr.commentPartText[node] = text`: the piece of `ast.Comment.Text` the node stands for.  The span
-`[pos, endPos)` is the file bytes of that piece (`commentTextSpan`, `Rg/Model/CommentSpan.lean`), longer than the
-piece where go/scanner stripped carriage returns.  (The repair builder's first patch used a new node type with an
-explicit end; ast.Walk-based consumers — the `Contains` filter, user code — panic on unknown node types, so the
-committed repair keeps `*ast.Comment`; pos, end and texts are the same, `fixes/c12-cr-offsets.agent.diff`.)
-
-Oracle inputs (trusted libraries): the comment's offset and `Text` as go/parser delivers them, the
-`*regexp.Regexp` answers `FindStringSubmatchIndex`, `FindStringIndex`, `SubexpNames`, and
-`syntax.Parse` for `regexpHasCaptureGroups`.  `src` is what `fileBytes()` returns (the file's bytes, or
-empty when the file cannot be read); it is consulted for positions only: `nodeText` of such a node
-is the remembered piece.
+Verbatim copy of the model of `runner.go:runCommentRules` / `handleCommentMatch` / `nodeText` of the
+unrepaired code: a submatch index into `ast.Comment.Text` is used as a byte distance from the comment's
+start in the file, a node's end is its start plus the length of its text, and node texts are read from
+the file when it is readable.  False in files with CRLF line endings (go/scanner strips the carriage
+returns from the comment text): kept for `C12.cr_counterexample` and for the driver variant `crasis`.
+The model of the code as it stands is `Rg/Model/Comment.lean`.
 -/
-namespace CM
+namespace CMAsIs
 open Rx
 
 structure Node where
   pos : Nat
   text : Bytes
-  endPos : Nat
 deriving DecidableEq, Repr
+
+def Node.endPos (n : Node) : Nat := n.pos + n.text.length
 
 structure Cap where
   name : Bytes
@@ -75,8 +64,14 @@ deriving DecidableEq, Repr
 def filePos (size : Nat) (x : Int) : Nat :=
   if x < 0 then 0 else if x > (size : Int) then size else x.toNat
 
-/-- `rr.nodeText(n)` for a node made by `commentPart`: `[]byte(rr.commentPartText[n])` -/
-def nodeText (n : Node) : Bytes := n.text
+/-- `Fset.Position(file.Pos(base+p)).Offset`: a position past the file's end belongs to no file → 0 -/
+def offsetOf (size : Nat) (p : Nat) : Nat := if p ≤ size then p else 0
+
+/-- `rr.nodeText(n)` for an `*ast.Comment` -/
+def nodeText (src : Bytes) (size : Nat) (n : Node) : Res Bytes :=
+  let frm := offsetOf size n.pos
+  let to := offsetOf size n.endPos
+  if frm < src.length ∧ to ≤ src.length then goSlice src frm to else .ok n.text
 
 def dollar : UInt8 := 36
 def dollarDollar : Bytes := [36, 36]
@@ -88,95 +83,94 @@ def insertByLen (c : Cap) : List Cap → List Cap
 def sortCaps (l : List Cap) : List Cap := l.foldl (fun acc c => insertByLen c acc) []
 
 /-- text substituted for a node: `nodeText`, then `truncateText` when `truncate` -/
-def substText (truncate : Bool) (cfg : Int) (n : Node) : Res Bytes :=
-  interp truncate (nodeText n) cfg
+def substText (src : Bytes) (size : Nat) (truncate : Bool) (cfg : Int) (n : Node) : Res Bytes :=
+  (nodeText src size n).bind fun t => interp truncate t cfg
 
 /-- the interpolation loop of `renderMessage`; `skip` = bytes of a variable name still to jump over -/
-def renderLoop (truncate : Bool) (cfg : Int) (m : MatchD) (caps : List Cap) :
+def renderLoop (src : Bytes) (size : Nat) (truncate : Bool) (cfg : Int) (m : MatchD) (caps : List Cap) :
     Nat → Bytes → Res Bytes
   | _, [] => .ok []
-  | skip + 1, _ :: rest => renderLoop truncate cfg m caps skip rest
+  | skip + 1, _ :: rest => renderLoop src size truncate cfg m caps skip rest
   | 0, b :: rest =>
     if b = dollar then
       if [dollar].isPrefixOf rest then
-        (substText truncate cfg m.node).bind fun t =>
-          (renderLoop truncate cfg m caps 1 rest).bind fun r => .ok (t ++ r)
+        (substText src size truncate cfg m.node).bind fun t =>
+          (renderLoop src size truncate cfg m caps 1 rest).bind fun r => .ok (t ++ r)
       else
         match caps.find? (fun c => c.name.isPrefixOf rest) with
         | some c =>
-          (substText truncate cfg c.node).bind fun t =>
-            (renderLoop truncate cfg m caps c.name.length rest).bind fun r => .ok (t ++ r)
-        | none => (renderLoop truncate cfg m caps 0 rest).bind fun r => .ok (dollar :: r)
-    else (renderLoop truncate cfg m caps 0 rest).bind fun r => .ok (b :: r)
+          (substText src size truncate cfg c.node).bind fun t =>
+            (renderLoop src size truncate cfg m caps c.name.length rest).bind fun r => .ok (t ++ r)
+        | none => (renderLoop src size truncate cfg m caps 0 rest).bind fun r => .ok (dollar :: r)
+    else (renderLoop src size truncate cfg m caps 0 rest).bind fun r => .ok (b :: r)
 
 /-- `rr.renderMessage(msg, m, truncate)` -/
-def renderMessage (cfg : Int) (msg : Bytes) (m : MatchD) (truncate : Bool) : Res Bytes :=
+def renderMessage (src : Bytes) (size : Nat) (cfg : Int) (msg : Bytes) (m : MatchD) (truncate : Bool) : Res Bytes :=
   if !msg.contains dollar then .ok msg else
-  renderLoop truncate cfg m (if m.caps.length > 1 then sortCaps m.caps else m.caps) 0 msg
+  renderLoop src size truncate cfg m (if m.caps.length > 1 then sortCaps m.caps else m.caps) 0 msg
 
 /-- `m.CapturedByName(name)` (gogrep: `$$` is the whole match, otherwise the first capture of that name) -/
 def capturedByName (m : MatchD) (name : Bytes) : Option Node :=
   if name = dollarDollar then some m.node else (m.caps.find? (fun c => c.name = name)).map (·.node)
 
-/-- `rr.commentPart(file, comment, lo, hi)`: the text is sliced first (slice panic on bad indices), then
-`commentTextSpan(rr.fileBytes(), file.Offset(comment.Pos()), comment.Text, lo, hi)` gives the span -/
-def mkNode (src : Bytes) (size off : Nat) (text : Bytes) (lo hi : Int) : Res Node :=
-  (goSlice text lo hi).bind fun t =>
-    (textSpan src off text lo.toNat hi.toNat).bind fun fe =>
-      .ok ⟨filePos size fe.1, t, filePos size fe.2⟩
-
 /-- the named-group loop of `runCommentRules` -/
-def capsLoop (src : Bytes) (size off : Nat) (text : Bytes) (result : List Int) : Nat → List Bytes → Res (List Cap)
+def capsLoop (size off : Nat) (text : Bytes) (result : List Int) : Nat → List Bytes → Res (List Cap)
   | _, [] => .ok []
   | i, name :: rest =>
-    if i = 0 ∨ name = [] then capsLoop src size off text result (i + 1) rest else
+    if i = 0 ∨ name = [] then capsLoop size off text result (i + 1) rest else
     match result[2 * i]?, result[2 * i + 1]? with
     | some b, some e =>
       if b < 0 ∨ e < 0 then
-        (mkNode src size off text 0 0).bind fun n =>
-          (capsLoop src size off text result (i + 1) rest).bind fun cs => .ok (⟨name, n⟩ :: cs)
+        (capsLoop size off text result (i + 1) rest).bind fun cs => .ok (⟨name, ⟨off, []⟩⟩ :: cs)
       else
-        (mkNode src size off text b e).bind fun n =>
-          (capsLoop src size off text result (i + 1) rest).bind fun cs => .ok (⟨name, n⟩ :: cs)
+        (goSlice text b e).bind fun t =>
+          (capsLoop size off text result (i + 1) rest).bind fun cs =>
+            .ok (⟨name, ⟨filePos size (b + off), t⟩⟩ :: cs)
     | _, _ => .panic .index
 
+/-- `&ast.Comment{Slash: file.Pos(lo + off), Text: comment.Text[lo:hi]}` -/
+def mkNode (size off : Nat) (text : Bytes) (lo hi : Int) : Res Node :=
+  (goSlice text lo hi).bind fun t => .ok ⟨filePos size (lo + off), t⟩
+
 /-- the match data `runCommentRules` builds for one rule; `none` = the regexp does not match (`continue`) -/
-def buildMatch (src : Bytes) (size off : Nat) (text : Bytes) (r : CRule) : Res (Option MatchD) :=
+def buildMatch (size off : Nat) (text : Bytes) (r : CRule) : Res (Option MatchD) :=
   if r.captureGroups then
     match r.sub with
     | none => .ok none
     | some result =>
-      (capsLoop src size off text result 0 r.names).bind fun caps =>
+      (capsLoop size off text result 0 r.names).bind fun caps =>
         match result[0]?, result[1]? with
-        | some lo, some hi => (mkNode src size off text lo hi).bind fun n => .ok (some ⟨n, caps⟩)
+        | some lo, some hi => (mkNode size off text lo hi).bind fun n => .ok (some ⟨n, caps⟩)
         | _, _ => .panic .index
   else
     match r.idx with
     | none => .ok none
-    | some (lo, hi) => (mkNode src size off text lo hi).bind fun n => .ok (some ⟨n, []⟩)
+    | some (lo, hi) => (mkNode size off text lo hi).bind fun n => .ok (some ⟨n, []⟩)
 
-def evalFilter (m : MatchD) : List Atom → Res Bool
+def evalFilter (src : Bytes) (size : Nat) (m : MatchD) : List Atom → Res Bool
   | [] => .ok true
   | a :: rest =>
     let (var, lit, wantEq) := match a with | .textEq v l => (v, l, true) | .textNe v l => (v, l, false)
     match capturedByName m var with
     | none => .panic .nilDeref            -- nodeText(nil)
-    | some n => if (nodeText n == lit) == wantEq then evalFilter m rest else .ok false
+    | some n =>
+      (nodeText src size n).bind fun t =>
+        if (t == lit) == wantEq then evalFilter src size m rest else .ok false
 
 /-- `if rule.base.filter.fn != nil { … }`: does the filter let the match through -/
-def filterResult (m : MatchD) (r : CRule) : Res Bool :=
+def filterResult (src : Bytes) (size : Nat) (m : MatchD) (r : CRule) : Res Bool :=
   match r.filter with
   | none => .ok true
-  | some atoms => evalFilter m atoms
+  | some atoms => evalFilter src size m atoms
 
 /-- `node := m.Node(); if location != "" { node, _ = m.CapturedByName(location) }` (none = nil interface) -/
 def reportNode (m : MatchD) (r : CRule) : Option Node :=
   if r.location ≠ [] then capturedByName m r.location else some m.node
 
 /-- the `Suggestion` literal: the replacement is rendered, then `node.Pos()`/`node.End()` are taken -/
-def suggestionOf (cfg : Int) (m : MatchD) (r : CRule) : Res (Option (Nat × Nat × Bytes)) :=
+def suggestionOf (src : Bytes) (size : Nat) (cfg : Int) (m : MatchD) (r : CRule) : Res (Option (Nat × Nat × Bytes)) :=
   if r.suggestion ≠ [] then
-    (renderMessage cfg r.suggestion m false).bind fun repl =>
+    (renderMessage src size cfg r.suggestion m false).bind fun repl =>
       match reportNode m r with
       | none => .panic .nilDeref         -- node.Pos() on a nil interface
       | some n => .ok (some (n.pos, n.endPos, repl))
@@ -184,12 +178,12 @@ def suggestionOf (cfg : Int) (m : MatchD) (r : CRule) : Res (Option (Nat × Nat 
 
 /-- `rr.handleCommentMatch(rule, m)`; `none` = rejected by the filter.  `useAltLine` selects the
 variant after `fixes/comment-rule-line.diff` (`base: resultBase`). -/
-def handleCommentMatch (useAltLine : Bool) (cfg : Int) (k : Nat) (r : CRule) (m : MatchD) :
+def handleCommentMatch (useAltLine : Bool) (src : Bytes) (size : Nat) (cfg : Int) (k : Nat) (r : CRule) (m : MatchD) :
     Res (Option Report) :=
-  (filterResult m r).bind fun ok =>
+  (filterResult src size m r).bind fun ok =>
   if !ok then .ok none else
-  (renderMessage cfg r.msg m true).bind fun message =>
-  (suggestionOf cfg m r).bind fun sugg =>
+  (renderMessage src size cfg r.msg m true).bind fun message =>
+  (suggestionOf src size cfg m r).bind fun sugg =>
   .ok (some ⟨k, if useAltLine then r.altLine else r.line, reportNode m r, message, sugg⟩)
 
 /-- `rr.runCommentRules(comment)`: the first rule that matches and accepts reports; the rest is skipped -/
@@ -197,11 +191,11 @@ def runFrom (useAltLine : Bool) (src : Bytes) (size : Nat) (cfg : Int) (off : Na
     Nat → List CRule → Res (Option Report)
   | _, [] => .ok none
   | k, r :: rest =>
-    (buildMatch src size off text r).bind fun om =>
+    (buildMatch size off text r).bind fun om =>
       match om with
       | none => runFrom useAltLine src size cfg off text (k + 1) rest
       | some m =>
-        (handleCommentMatch useAltLine cfg k r m).bind fun rep =>
+        (handleCommentMatch useAltLine src size cfg k r m).bind fun rep =>
           match rep with
           | some x => .ok (some x)
           | none => runFrom useAltLine src size cfg off text (k + 1) rest
@@ -210,23 +204,4 @@ def runCommentRules (useAltLine : Bool) (src : Bytes) (size : Nat) (cfg : Int) (
     (rules : List CRule) : Res (Option Report) :=
   runFrom useAltLine src size cfg off text 0 rules
 
-/-! ## `regexpHasCaptureGroups` -/
-
-mutual
-/-- `walkRegexp` with its `found` flag threaded through -/
-def walkRe (found : Bool) : Re → Bool
-  | .mk op _ _ subs _ _ =>
-    if found then true else
-    if op = .capture then true else walkList false subs
-def walkList (found : Bool) : List Re → Bool
-  | [] => found
-  | r :: rs => walkList (walkRe found r) rs
-end
-
-/-- `regexpHasCaptureGroups(pattern)`; `none` = `syntax.Parse` failed (→ `true`, the conservative answer) -/
-def hasCaptureGroups (parsed : Option Re) : Bool :=
-  match parsed with
-  | none => true
-  | some re => walkRe false re
-
-end CM
+end CMAsIs
